@@ -245,3 +245,34 @@ Definition fc_crosscheck (D : list fev) : bool :=
   let E := map (fun e => (eid (fe e), fe e)) (filter (fun e => match nlookup (eid (fe e)) T with Some _ => true | None => false end) D) in
   forallb (fun a => forallb (fun b => Bool.eqb (fc_n ws q a b) (fc_spec ws q nv E (nd_id a) (nd_id b))) T) T.
 End Reference.
+
+(* ================= 4. epochs ================= *)
+(* The application seals an epoch when the block of frame [seal] is applied (0 = never); the next
+   epoch starts from an empty DAG with the validators chosen by the sealing policy:
+   0 unchanged, 1 weights mutated, 2 the last validator in canonical order removed. *)
+Definition next_vals (pol : N) (vals : list (N * N)) (epoch : N) : list (N * N) :=
+  match pol with
+  | 1 => map (fun p => (fst p, snd p * (500 + (fst p + 7 * epoch) mod 500) / 1000 + 1)) vals
+  | 2 => match rev (canon_order vals) with
+         | k :: _ :: _ => firstn k vals ++ skipn (S k) vals
+         | _ => vals
+         end
+  | _ => vals
+  end.
+(* blocks up to and including the sealing frame; whether it was reached *)
+Fixpoint seal_cut {A} (seal : N) (bs : list (N * N * A)) : list (N * N * A) * bool :=
+  match bs with
+  | [] => ([], false)
+  | b :: rest => if (fst (fst b) =? seal) && negb (seal =? 0) then ([b], true)
+                 else let '(l, s) := seal_cut seal rest in (b :: l, s)
+  end.
+(* per epoch: per-event results, blocks, sealed? — an epoch's events are judged against its own DAG *)
+Fixpoint reference_epochs (seal pol : N) (vals : list (N * N)) (epoch : N) (Ds : list (list fev))
+  : list (list (N * N) * list (N * N * list N) * bool) :=
+  match Ds with
+  | [] => []
+  | D :: rest =>
+    let '(rs, bs) := reference vals D in
+    let '(bs', sealed) := seal_cut seal bs in
+    (rs, bs', sealed) :: (if sealed then reference_epochs seal pol (next_vals pol vals epoch) (epoch + 1) rest else [])
+  end.
